@@ -62,7 +62,7 @@ SELECTS = ['.a', '.b=B', '.k', '(size .arr)=n', '.arr', '.', '(get . "a")=ga', '
            # references to the values selected so far, by name (an unnamed selection is named by its text; a missing name gives nothing; of two equal names the ... the code decides, the model follows)
            '/B/=rb', '/.a/=ra', '/dup/=rd', '(default /n/ /c/ "none")=rn', '/nosuch/=rx',
            # boolean functions on arguments that are not all booleans (nothing, not false) in changing patterns from record to record
-           '(and .flag (= .a 1) .b)=an', '(or .flag .k (= .a 2))=orr', '(and (= .a 1) .flag)=an2', '(xor .flag (= .a 1))=xr', '(not .flag)=nf']
+           '(stringify .a)=k', '.b=a', '(and .flag (= .a 1) .b)=an', '(or .flag .k (= .a 2))=orr', '(and (= .a 1) .flag)=an2', '(xor .flag (= .a 1))=xr', '(not .flag)=nf']
 SORTS = ['.a', '.b=desc', '.k=ASC', '.a=DESC', '.k', '(size .arr)=Desc', '.b', '/B/', '/.a/=desc', '/n/']
 GROUPS = ['.k', '(? (= .a 1) "one" "rest")', '.b', '(map .arr .k)']
 SPLITS = ['.arr', '(filter .arr (= .k "x"))', '[10, 20]', '(? (object? .) .arr (push [] . "s"))', '(default .arr [1])']
